@@ -8,7 +8,7 @@
    pipeline model is tied to the implementation byte for byte. *)
 From Coq Require Import String NArith List Bool.
 From RC Require Import lib.Result lib.Bytes model.Layout model.Flags model.ChkIo model.TrigTable model.RichCodec model.RichIo
-  proofs.Flags_proofs proofs.C03_proofs proofs.C10_proofs proofs.C08_proofs proofs.C03_strings proofs.C02_entries model.Str model.StrEditor gen.GenFlags gen.GenTrig spec.SpecTrig.
+  proofs.Flags_proofs proofs.C03_proofs proofs.C10_proofs proofs.C08_proofs proofs.C03_strings proofs.C02_entries proofs.C02_triggers gen.GenConsts model.Str model.StrEditor gen.GenFlags gen.GenTrig spec.SpecTrig.
 Import ListNotations.
 Local Open Scope string_scope.
 Local Open Scope list_scope.
@@ -108,3 +108,29 @@ Theorem C02_string_arguments_keep_their_text :
     dec_arg cx CStr n = Ok x -> enc_arg cx' CStr x = Ok n' -> str_by_id (cx_str cx') n' = str_by_id (cx_str cx) n.
 Proof. exact string_codec_same_text. Qed.
 Print Assumptions C02_string_arguments_keep_their_text.
+
+(* one WHOLE trigger through an unedited load and save: when its condition and action lists have no gap (no empty entry in front
+   of a used one - the gap case is the recorded finding interior-gap-compacted), every entry is written back AT ITS OWN POSITION
+   as the encoding of what was decoded from that position, and every empty position as the all-zero entry; what one entry keeps
+   is C02_a_supported_action_keeps_its_values / ..._condition_... above and C10's theorems for the entries without a rich model *)
+Theorem C02_trigger_entries_stay_in_place_when_there_is_no_gap :
+  forall cx cx' v t v',
+    trigger_decode cx v = Ok t -> trigger_encode cx' t = Ok v' ->
+    length (vlist "_conditions" v) = N.to_nat NUM_CONDITIONS_PER_TRIGGER ->
+    length (vlist "_actions" v) = N.to_nat NUM_ACTIONS_PER_TRIGGER ->
+    (forall os, mapM (dec_cond cx) (vlist "_conditions" v) = Ok os -> gap_free os) ->
+    (forall os, mapM (dec_act cx) (vlist "_actions" v) = Ok os -> gap_free os) ->
+    (forall k slot, nth_error (vlist "_conditions" v) k = Some slot ->
+       exists o, dec_cond cx slot = Ok o /\
+         match o with
+         | Some e => exists slot', nth_error (vlist "_conditions" v') k = Some slot' /\ enc_cond cx' e = Ok slot'
+         | None => nth_error (vlist "_conditions" v') k = Some (empty_entry condition_record_fields)
+         end) /\
+    (forall k slot, nth_error (vlist "_actions" v) k = Some slot ->
+       exists o, dec_act cx slot = Ok o /\
+         match o with
+         | Some e => exists slot', nth_error (vlist "_actions" v') k = Some slot' /\ enc_act cx' e = Ok slot'
+         | None => nth_error (vlist "_actions" v') k = Some (empty_entry action_record_fields)
+         end).
+Proof. exact trigger_entries_stay_in_place. Qed.
+Print Assumptions C02_trigger_entries_stay_in_place_when_there_is_no_gap.
